@@ -188,6 +188,21 @@ func (s *Stream) UnreadRune() error {
 	return err
 }
 
+// peeked puts back what a look-ahead read (a peek, or the reader looking past an end token) took from the stream,
+// so that the next read starts where the look-ahead started. before is the end-of-stream state prior to the read and
+// err is what the read returned.
+func (s *Stream) peeked(before endOfStream, err error, unread func() error) {
+	if err == nil && s.endOfStream != endOfStreamPast {
+		_ = unread()
+		return
+	}
+	if err == nil || (err == io.EOF && before != endOfStreamPast) {
+		// The look-ahead ran into the end of the input: there's nothing to put back and
+		// end_of_file hasn't been delivered yet, so we're at the end of the stream, not past it.
+		s.endOfStream = endOfStreamAt
+	}
+}
+
 // Seek sets the offset to the underlying source/sink.
 func (s *Stream) Seek(offset int64, whence int) (int64, error) {
 	if !s.reposition {
